@@ -250,8 +250,21 @@ class DictField(Field):
             return value
         if isinstance(value, dict):
             # undo the key / value fields' on-disk encoding (the inverse of to_basic) before validating
-            value = {
-                self.key_field.to_python(cfg, key): self.value_field.to_python(cfg, val)  # type: ignore
-                for key, val in value.items()
-            }
+            decoded = {}
+            for key, val in value.items():
+                try:
+                    decoded[self.key_field.to_python(cfg, key)] = self.value_field.to_python(cfg, val)  # type: ignore
+                except ValidationError:
+                    raise
+                except Exception as exc:
+                    # name the entry, like DictProxy does for entries it rejects
+                    cfg_path = getattr(cfg, "_ref_path", None)
+                    path = ((cfg_path + ".") if cfg_path else "") + self._key
+                    raise ValidationError(
+                        cfg,
+                        self,
+                        "invalid dictionary entry: %s" % exc,
+                        ref_path="%s[%s]" % (path, key),
+                    ) from exc
+            value = decoded
         return DictProxy(cfg, self, value)
